@@ -107,6 +107,7 @@ type Run struct {
 	curFullItem         bool
 	thisFullItem        bool
 	inReconcile         bool
+	sawPartialChange    bool
 	midRecSecret        bool
 	startupReloads      int
 	startupCmds         int
